@@ -106,7 +106,8 @@ Record Inv (g : cfg) : Prop := mkInv {
   i_sc : sock_closed (cn g) = (0 <? sock_closes (cn g));
   i_reply : cn_reply (cn g) + r_can_reply (rd g) <= 1;
   i_once : cn_close (cn g) + cn_reply (cn g) <= (if cn_once (cn g) then 1 else 0);
-  i_once2 : cn_once (cn g) = true -> 1 <= cn_close (cn g) + cn_reply (cn g) \/ sock_closed (cn g) = true;
+  i_once2 : cn_once (cn g) = true ->
+            1 <= cn_close (cn g) + cn_reply (cn g) \/ sock_closed (cn g) = true \/ wr_blk (cn g) = true;
   i_hsopen : hs_open (cn g) = h_mid (hs g);
   i_pre : h_pre (hs g) = true -> installed (cn g) = false;
   i_run : h_run (hs g) = true -> installed (cn g) = true;
@@ -170,6 +171,7 @@ Proof.
   - constructor; cbn in *; auto.
   - constructor; cbn in *; auto.
   - constructor; cbn in *; auto.
+  - constructor; cbn in *; auto.
 Qed.
 
 Lemma inv_hs b g : Inv g -> Inv (exec (StepHs b) g).
@@ -204,7 +206,8 @@ Proof.
     destruct can_rd; [|destruct sock_closed]; constructor; unfold winners, sockers; cbn in *; auto;
       try congruence; try lia.
   - (* RReply *)
-    destruct cn_once, sock_closed; constructor; unfold winners, sockers; cbn in *; auto; try congruence; try lia.
+    destruct wr_blk, can_rd, sock_closed, cn_once; cbn;
+      constructor; unfold winners, sockers; cbn in *; auto; try congruence; try lia.
   - (* RClassify *)
     destruct k; cbn; [| |destruct closed| |destruct est];
       constructor; unfold winners, sockers; cbn in *; auto; try congruence; try lia;
@@ -283,7 +286,7 @@ Proof.
     + specialize (SW (UC CSock) En). specialize (SS (UC CSock) En).
       assert (closed = true) by (destruct closed; auto; specialize (Hopen eq_refl); discriminate).
       subst. specialize (H3 eq_refl). rewrite andb_true_r.
-      destruct e, cn_once; constructor; unfold winners, sockers; cbn in *; auto; try congruence; try lia.
+      destruct e, cn_once, wr_blk; constructor; unfold winners, sockers; cbn in *; auto; try congruence; try lia.
     + specialize (SW (UC CRet) En). specialize (SS (UC CRet) En).
       assert (closed = true) by (destruct closed; auto; specialize (Hopen eq_refl); discriminate).
       subst. specialize (H3 eq_refl).
@@ -380,8 +383,8 @@ Proof. vm_compute. auto. Qed.
 (* ---------- monotonicity facts used below ---------- *)
 
 Definition total (c : conn) : nat := cn_close c + cn_reply c.
-(* "if the Once is consumed then a record is on the wire" *)
-Definition once_sent (c : conn) : Prop := cn_once c = true -> 1 <= total c.
+(* "if the Once is consumed then a record is on the wire" - unless the socket did not take it *)
+Definition once_sent (c : conn) : Prop := cn_once c = true -> wr_blk c = false -> 1 <= total c.
 
 Ltac mono :=
   cbn; unfold send_cn_close, send_cn_reply, once_sent, total;
@@ -394,7 +397,7 @@ Ltac mono :=
 Lemma user_step_mono u c :
   let c' := snd (user_step u c) in
   est c' = est c /\ cn_close c <= cn_close c' /\ (closed c = true -> closed c' = true) /\
-  total c <= total c' /\ (once_sent c -> once_sent c').
+  total c <= total c' /\ (once_sent c -> once_sent c') /\ wr_blk c' = wr_blk c.
 Proof.
   destruct u as [p| |]; [destruct p as [|w i|w i| |e| |]| |]; mono.
   all: unfold once_sent, total in *; cbn in *; try (specialize (H eq_refl)); try lia; auto.
@@ -403,16 +406,17 @@ Qed.
 Lemma reader_step_mono r c :
   let c' := snd (reader_step r c) in
   est c' = est c /\ cn_close c <= cn_close c' /\ (closed c = true -> closed c' = true) /\
-  total c <= total c' /\ (sock_closed c = false -> once_sent c -> once_sent c').
+  total c <= total c' /\ (sock_closed c = false -> once_sent c -> once_sent c') /\ wr_blk c' = wr_blk c.
 Proof.
   destruct r as [| | |k|p| |]; [| | |destruct k|destruct p as [|w i|w i| |e| |]| |]; mono.
   all: unfold once_sent, total in *; cbn in *; try lia; auto.
+  all: try (rewrite H, H2 in *; discriminate).
 Qed.
 
 Lemma hs_step_mono b h r c :
   let c' := snd (hs_step b h r c) in
   est c' = est c /\ cn_close c' = cn_close c /\ closed c' = closed c /\
-  total c' = total c /\ cn_once c' = cn_once c.
+  total c' = total c /\ cn_once c' = cn_once c /\ wr_blk c' = wr_blk c.
 Proof.
   destruct h as [| | | |x|x]; [| | |destruct b|destruct r|]; mono.
 Qed.
@@ -421,7 +425,8 @@ Lemma env_step_mono e g :
   let g' := env_step e g in
   (est (cn g) = true -> est (cn g') = true) /\ cn_close (cn g') = cn_close (cn g) /\
   closed (cn g') = closed (cn g) /\ us g' = us g /\
-  total (cn g') = total (cn g) /\ cn_once (cn g') = cn_once (cn g).
+  total (cn g') = total (cn g) /\ cn_once (cn g') = cn_once (cn g) /\
+  (wr_blk (cn g') = false -> wr_blk (cn g) = false).
 Proof.
   destruct g as [c h r l]; destruct e; cbn;
     try (destruct h; cbn); try (destruct r; cbn); mono.
@@ -438,13 +443,25 @@ Proof.
   - specialize (IH i H). lia.
 Qed.
 
+(* a record is on the wire - unless the socket did not take writes *)
+Definition sent_or_blk (c : conn) : Prop := wr_blk c = false -> 1 <= total c.
+
+Lemma sob_mono c c' :
+  total c <= total c' -> (wr_blk c' = false -> wr_blk c = false) -> sent_or_blk c -> sent_or_blk c'.
+Proof. unfold sent_or_blk. intros A B W X. specialize (W (B X)). lia. Qed.
+
+Lemma once_sent_mono c c' :
+  total c = total c' -> cn_once c' = cn_once c -> (wr_blk c' = false -> wr_blk c = false) ->
+  once_sent c -> once_sent c'.
+Proof. unfold once_sent. intros A B C W X Y. rewrite B in X. specialize (W X (C Y)). lia. Qed.
+
 (* thread i went on past the early return of close(true) on an established connection *)
 Definition won (i : nat) (g : cfg) : Prop :=
   est (cn g) = true /\
   match nth_error (us g) i with
   | Some (UC (CCan1 true _)) | Some (UC (CCan2 true _)) | Some (UC CEst)
   | Some (UC (CNotify true)) => once_sent (cn g)
-  | Some (UC CSock) | Some (UC CRet) | Some UWait | Some UDone => 1 <= total (cn g)
+  | Some (UC CSock) | Some (UC CRet) | Some UWait | Some UDone => sent_or_blk (cn g)
   | _ => False
   end.
 
@@ -471,7 +488,9 @@ Proof.
   - destruct (nth_error l j) as [u|] eqn:Ej; [|split; auto].
     destruct (user_step u c) as [u' c'] eqn:Es.
     pose proof (user_step_mono u c) as M. rewrite Es in M. cbn in M.
-    destruct M as (M1 & M2 & _ & M4 & M5).
+    destruct M as (M1 & M2 & _ & M4 & M5 & M6).
+    assert (SB : sent_or_blk c -> sent_or_blk c').
+    { apply sob_mono; auto. rewrite M6. auto. }
     unfold won; cbn. split; [congruence|].
     destruct (Nat.eq_dec j i) as [->|Hne].
     + rewrite (upd_nth_same _ _ _ _ Ej). rewrite Ej in W.
@@ -481,27 +500,39 @@ Proof.
         -- destruct w; try contradiction. inversion Es; subst. auto.
         -- inversion Es; subst. rewrite E. auto.
         -- destruct e; try contradiction. inversion Es; subst. cbn.
-           unfold send_cn_close, once_sent, total in *.
-           destruct (cn_once c) eqn:O; cbn; [auto|lia].
-        -- inversion Es; subst. unfold total in *; cbn in *. lia.
-        -- destruct (hs_open c); inversion Es; subst; lia.
-      * destruct (hs_open c); inversion Es; subst; lia.
-      * inversion Es; subst. lia.
+           unfold send_cn_close, once_sent, sent_or_blk, total in *.
+           destruct (cn_once c) eqn:O; cbn; [auto|]. intro B. rewrite B. lia.
+        -- inversion Es; subst. auto.
+        -- destruct (hs_open c); inversion Es; subst; auto.
+      * destruct (hs_open c); inversion Es; subst; auto.
+      * inversion Es; subst. auto.
     + rewrite (upd_nth_other _ _ _ _ Hne).
-      destruct (nth_error l i) as [[[|[] ?|[] ?| |[]| |]| |]|]; auto; lia.
+      destruct (nth_error l i) as [[[|[] ?|[] ?| |[]| |]| |]|]; auto.
   - destruct (reader_step r c) as [r' c'] eqn:Es.
     pose proof (reader_step_mono r c) as M. rewrite Es in M. cbn in M.
-    destruct M as (M1 & M2 & _ & M4 & M5).
+    destruct M as (M1 & M2 & _ & M4 & M5 & M6).
+    assert (SB : sent_or_blk c -> sent_or_blk c').
+    { apply sob_mono; auto. rewrite M6. auto. }
     unfold won; cbn. split; [congruence|].
-    destruct (nth_error l i) as [[[|[] ?|[] ?| |[]| |]| |]|] eqn:En; auto; try lia;
+    destruct (nth_error l i) as [[[|[] ?|[] ?| |[]| |]| |]|] eqn:En; auto;
       apply M5; auto; eapply SO; eauto.
   - destruct (hs_step b h r c) as [[h' r'] c'] eqn:Es.
     pose proof (hs_step_mono b h r c) as M. rewrite Es in M. cbn in M.
-    destruct M as (M1 & _ & _ & M4 & M5).
-    unfold won, once_sent in *; cbn. split; [congruence|]. rewrite M4, M5. auto.
-  - pose proof (env_step_mono e (mkCfg c h r l)) as M. cbn in M.
     destruct M as (M1 & _ & _ & M4 & M5 & M6).
-    unfold won, once_sent in *. split; [auto|]. rewrite M4, M5, M6. cbn. auto.
+    assert (SB : sent_or_blk c -> sent_or_blk c').
+    { apply sob_mono; [lia|rewrite M6; auto]. }
+    assert (OS : once_sent c -> once_sent c').
+    { apply once_sent_mono; auto. rewrite M6. auto. }
+    unfold won; cbn. split; [congruence|].
+    destruct (nth_error l i) as [[[|[] ?|[] ?| |[]| |]| |]|] eqn:En; auto.
+  - pose proof (env_step_mono e (mkCfg c h r l)) as M. cbn in M.
+    destruct M as (M1 & _ & _ & M4 & M5 & M6 & M7).
+    assert (SB : sent_or_blk c -> sent_or_blk (cn (env_step e (mkCfg c h r l)))).
+    { apply sob_mono; [lia|auto]. }
+    assert (OS : once_sent c -> once_sent (cn (env_step e (mkCfg c h r l)))).
+    { apply once_sent_mono; auto. }
+    unfold won. split; [auto|]. rewrite M4. cbn.
+    destruct (nth_error l i) as [[[|[] ?|[] ?| |[]| |]| |]|] eqn:En; auto.
 Qed.
 
 Lemma won_run i ops g : Inv g -> won i g -> won i (run ops g).
@@ -510,28 +541,31 @@ Proof.
   apply IH; [apply inv_exec, I|apply won_exec; auto].
 Qed.
 
-(* A Close() that starts on an established, not yet closed connection and returns: exactly one
-   close_notify record of this endpoint is on the wire - its own, or the read loop's reply to the
-   peer's close_notify if that got to the sync.Once first. *)
+(* A Close() that starts on an established, not yet closed connection and returns, on a socket that
+   took writes all along: exactly one close_notify record of this endpoint is on the wire - its
+   own, or the read loop's reply to the peer's close_notify if that got to the sync.Once first.
+   (Without the premise the write of close() is abandoned after closeNotifyTimeout: see
+   close_with_blocked_socket below.) *)
 Theorem sent_when_user_closes_established_open d v ops1 ops2 i :
   let g1 := run ops1 (cfg0 d v) in
   est (cn g1) = true -> closed (cn g1) = false -> nth_error (us g1) i = Some (UC CLock) ->
   let g2 := run (StepUser i :: ops2) g1 in
-  nth_error (us g2) i = Some UDone -> cn_close (cn g2) + cn_reply (cn g2) = 1.
+  nth_error (us g2) i = Some UDone -> wr_blk (cn g2) = false ->
+  cn_close (cn g2) + cn_reply (cn g2) = 1.
 Proof.
-  intros g1 E C N g2 D.
+  intros g1 E C N g2 D WB.
   pose proof (inv_reachable d v ops1) as I1. fold g1 in I1.
   assert (B : by_user (cn g1) = false).
   { destruct (by_user (cn g1)) eqn:B; auto. pose proof (i_user _ I1 B). congruence. }
   assert (O : once_sent (cn g1)).
-  { intro O1. unfold total. destruct (i_once2 _ I1 O1) as [X|X]; [exact X|].
+  { intros O1 W1. unfold total. destruct (i_once2 _ I1 O1) as [X|[X|X]]; [exact X| |congruence].
     (* the socket of a connection that is not closed has never been closed *)
     destruct (i_open _ I1 C) as (_ & _ & _ & Z). rewrite (i_sc _ I1), Z in X. discriminate. }
   assert (W : won i (exec (StepUser i) g1)).
-  { clear D g2. destruct g1 as [c h r l]. cbn in *. rewrite N. cbn. rewrite B, C. cbn.
+  { clear D WB g2. destruct g1 as [c h r l]. cbn in *. rewrite N. cbn. rewrite B, C. cbn.
     unfold won; cbn. split; [exact E|]. rewrite (upd_nth_same _ _ _ _ N). exact O. }
   pose proof (won_run i ops2 _ (inv_exec _ _ I1) W) as [_ W2].
-  unfold g2 in D. cbn [run] in D. rewrite D in W2.
+  unfold g2 in D, WB. cbn [run] in D, WB. rewrite D in W2. specialize (W2 WB).
   assert (I2 : Inv (run ops2 (exec (StepUser i) g1))) by (apply inv_run, inv_exec, I1).
   pose proof (i_once _ I2) as X. unfold g2. cbn [run]. unfold total in W2.
   destruct (cn_once (cn (run ops2 (exec (StepUser i) g1)))); lia.
@@ -702,8 +736,8 @@ Qed.
 (* HandshakeContext: the result classes after close; the select itself is woken by the read
    loop's firstErr (see no_deadlock / close_returns below) *)
 Theorem handshake_result_after_close_class r :
-  In (hres_class false r) [KOk; KCanceled; KNetClosed; KAlert; KOther].
-Proof. destruct r as [|[]|]; cbn; intuition. Qed.
+  In (hres_class false r) [KOk; KCanceled; KNetClosed; KAlert; KOther; KClosed].
+Proof. destruct r as [|[]| |]; cbn; intuition. Qed.
 
 (* ================================================================== deadlock freedom *)
 
@@ -784,6 +818,11 @@ Proof.
     pose proof (i_sock _ I Cl) as S. unfold sockers in S. cbn in S.
     rewrite (no_uc_sum_s _ EU) in S. pose proof (i_sc _ I) as Sc. cbn in Sc.
     rewrite Sc. replace (sock_closes c) with 1 by lia. apply orb_true_r.
+  - (* RReply on a socket that does not take writes: the socket has been closed *)
+    exists StepReader. cbn. split; auto.
+    pose proof (i_sock _ I Cl) as S. unfold sockers in S. cbn in S.
+    rewrite (no_uc_sum_s _ EU) in S. pose proof (i_sc _ I) as Sc. cbn in Sc.
+    rewrite Sc. replace (sock_closes c) with 1 by lia. apply orb_true_r.
   - (* RDone *)
     pose proof (i_ferr _ I eq_refl) as Fe. cbn in Fe.
     destruct h as [| | | |x|x] eqn:Eh.
@@ -825,7 +864,8 @@ Proof.
   - destruct r as [| | |k|p| |]; cbn; try discriminate.
     + intro En. destruct (can_rd c); [unfold mu; cbn; lia|].
       cbn in En. rewrite En. unfold mu; cbn; lia.
-    + intros _. destruct (sock_closed c); unfold mu; cbn; lia.
+    + intro En. destruct (wr_blk c), (can_rd c), (sock_closed c); cbn in *; try discriminate;
+        unfold mu; cbn; lia.
     + intros _. destruct k; cbn; try destruct (closed c); try destruct (est c); unfold mu; cbn; lia.
     + intros _. destruct p as [|w k|w k| |e| |]; cbn; try destruct k; try destruct w;
         try destruct (e && false); unfold mu; cbn; lia.
@@ -912,6 +952,7 @@ Definition open_established (g : cfg) : Prop :=
   installed (cn g) = true /\ can_hs (cn g) = false /\ can_rd (cn g) = false /\
   sock_closed (cn g) = false /\ sock_closes (cn g) = 0 /\ cn_close (cn g) = 0 /\
   cn_reply (cn g) = 0 /\ cn_once (cn g) = false /\ first_err (cn g) = None /\ dec_closed (cn g) = false /\
+  wr_blk (cn g) = false /\
   hs g = HRet HOk /\ rd g = RRead /\ us g = [].
 
 Definition run_user_close : list op :=
@@ -923,19 +964,19 @@ Definition run_recv_close_notify : list op := Env ERecvCN :: repeat StepReader 1
 Definition strip (c : conn) : conn :=
   mkConn (closed c) false (est c) (hs_open c) (installed c) (can_hs c) (can_rd c)
     (sock_closed c) (sock_closes c) 0 0 false None (dec_closed c)
-    (rd_dl c) (wr_dl c) (hctx c) (dual c) (v13 c).
+    (rd_dl c) (wr_dl c) (hctx c) (wr_blk c) (dual c) (v13 c).
 
 Definition oe_cfg (a b c d e : bool) : cfg :=
-  mkCfg (mkConn false false true false true false false false 0 0 0 false None false a b c d e)
+  mkCfg (mkConn false false true false true false false false 0 0 0 false None false a b c false d e)
         (HRet HOk) RRead [].
 
 Lemma open_established_shape g :
   open_established g -> exists a b c d e, g = oe_cfg a b c d e.
 Proof.
-  intros (H1 & H2 & H3 & H4 & H5 & H6 & H7 & H8 & H9 & H10 & H11 & H11b & H12 & H13 & H14 & H15 & H16).
-  destruct g as [c h r l]. destruct c as [f1 f2 f3 f4 f5 f6 f7 f8 f9 f10 f11 f11b f12 f13 f14 f15 f16 f17 f18].
+  intros (H1 & H2 & H3 & H4 & H5 & H6 & H7 & H8 & H9 & H10 & H11 & H11b & H12 & H13 & H13b & H14 & H15 & H16).
+  destruct g as [c h r l]. destruct c as [f1 f2 f3 f4 f5 f6 f7 f8 f9 f10 f11 f11b f12 f13 f14 f15 f16 f16b f17 f18].
   unfold cn, hs, rd, us, closed, by_user, est, hs_open, installed, can_hs, can_rd, sock_closed,
-    sock_closes, cn_close, cn_reply, cn_once, first_err, dec_closed in *.
+    sock_closes, cn_close, cn_reply, cn_once, first_err, dec_closed, wr_blk in *.
   subst. exists f14, f15, f16, f17, f18. reflexivity.
 Qed.
 
@@ -959,6 +1000,151 @@ Proof.
   vm_compute. repeat split; auto.
 Qed.
 
+(* ================================================================== who cancelled *)
+
+Definition h_late (h : hpc) : bool := match h with HWait _ | HRet _ => true | _ => false end.
+
+(* ctxRead is cancelled by close() (then the connection is closed) or by handshake() itself once
+   its select has fired; context.Canceled reaches firstErr only from the read loop *)
+Record Inv3 (g : cfg) : Prop := mkInv3 {
+  k_can : can_rd (cn g) = true -> closed (cn g) = true \/ h_late (hs g) = true;
+  k_rc : rd g = RClassify RCanceled -> closed (cn g) = true \/ h_late (hs g) = true;
+  k_fe : first_err (cn g) = Some RCanceled -> closed (cn g) = true \/ h_late (hs g) = true;
+  k_w : hs g = HWait (HErr RCanceled) -> closed (cn g) = true;
+  k_wc : hs g = HWait HCtx -> hctx (cn g) = true;
+  k_r : hs g = HRet (HErr RCanceled) -> hctx (cn g) = true;
+  k_rx : hs g = HRet HCtx -> hctx (cn g) = true
+}.
+
+Lemma inv3_0 d v : Inv3 (cfg0 d v).
+Proof. constructor; cbn; intros; discriminate. Qed.
+
+Ltac k3 :=
+  constructor; cbn in *; intros;
+  repeat match goal with
+         | H : _ = true -> _ |- _ => specialize (H eq_refl)
+         | H : ?x = ?x -> _ |- _ => specialize (H eq_refl)
+         end;
+  try discriminate; try congruence; auto; try tauto.
+
+Ltac fin :=
+  repeat match goal with H : ?x = ?x -> _ |- _ => specialize (H eq_refl) end;
+  try tauto; try (intuition congruence).
+
+Lemma inv3_exec o g : Inv g -> Inv3 g -> Inv3 (exec o g).
+Proof.
+  intros I [K1 K2 K3 K4 K5 K6 K7]. destruct g as [c h r l]. cbn in *.
+  destruct o as [|i| |b|e]; cbn.
+  - constructor; cbn; auto.
+  - destruct (nth_error l i) as [u|] eqn:En; [|constructor; auto].
+    assert (Hopen : closed c = false -> u = UC CLock).
+    { intro E. destruct (i_open _ I E) as (A & _). cbn in A.
+      pose proof (forallb_nth _ _ _ _ A En) as P. destruct u as [[]| |]; cbn in P; congruence. }
+    destruct u as [p| |]; [destruct p as [|w k|w k| |e| |]| |]; cbn.
+    + constructor; cbn; auto.
+    + destruct k; constructor; cbn; auto.
+    + assert (closed c = true) by (destruct (closed c); auto; specialize (Hopen eq_refl); discriminate).
+      destruct k, w; constructor; cbn; auto.
+    + constructor; cbn; auto.
+    + unfold send_cn_close. destruct (e && true), (cn_once c); constructor; cbn; auto.
+    + constructor; cbn; auto.
+    + destruct (hs_open c); constructor; cbn; auto.
+    + destruct (hs_open c); constructor; cbn; auto.
+    + constructor; cbn; auto.
+  - destruct r as [| | |k|p| |]; cbn.
+    + constructor; cbn; auto.
+    + destruct (can_rd c) eqn:Ec; [|destruct (sock_closed c)]; constructor; cbn; auto;
+        intros; try discriminate; try congruence; auto; fin.
+    + unfold send_cn_reply.
+      destruct (wr_blk c && negb (can_rd c || sock_closed c)); [constructor; cbn; auto; try discriminate; try congruence; fin|].
+      destruct (cn_once c); constructor; cbn; auto; try discriminate; try congruence; fin.
+    + destruct k; cbn; [| |destruct (closed c) eqn:Ecl| |destruct (est c)];
+        constructor; cbn; auto; try discriminate;
+        unfold put_first_err; cbn; destruct (first_err c) eqn:Ef; intros; try discriminate; try congruence; auto; fin.
+    + assert (Hopen : closed c = false -> p = CLock).
+      { intro E. destruct (i_open _ I E) as (_ & B & _). cbn in B. destruct p; try discriminate. reflexivity. }
+      destruct p as [|w k|w k| |e| |]; cbn.
+      * constructor; cbn; auto; try discriminate; try congruence; fin.
+      * destruct k; constructor; cbn; auto; try discriminate; try congruence; fin.
+      * assert (closed c = true) by (destruct (closed c); auto; specialize (Hopen eq_refl); discriminate).
+        destruct k, w; constructor; cbn; auto; try discriminate; try congruence; fin.
+      * constructor; cbn; auto; try discriminate; try congruence; fin.
+      * rewrite andb_false_r. constructor; cbn; auto; try discriminate; try congruence; fin.
+      * constructor; cbn; auto; try discriminate; try congruence; fin.
+      * constructor; cbn; auto; try discriminate; try congruence; fin.
+    + constructor; cbn; auto; try discriminate; try congruence; fin.
+    + constructor; cbn; auto.
+  - destruct h as [| | | |x|x]; cbn.
+    + constructor; cbn; auto.
+    + destruct (dual c); constructor; cbn; auto; try discriminate; try congruence; fin.
+    + destruct (hctx c) eqn:Eh; [|destruct (sock_closed c)]; constructor; cbn; auto; try discriminate; try congruence; fin.
+    + destruct b; cbn.
+      * destruct (first_err c) as [k|] eqn:Ef; constructor; cbn; auto; try discriminate; try congruence.
+        intro Hk. inversion Hk; subst. destruct (K3 eq_refl); auto. discriminate.
+      * destruct (hctx c) eqn:Eh; constructor; cbn; auto; try discriminate; try congruence; fin.
+      * destruct (est c); constructor; cbn; auto; try discriminate; try congruence; fin.
+    + destruct r; cbn; try (constructor; cbn; auto; fail).
+      constructor; cbn; auto; try discriminate.
+      * unfold resolve. destruct x as [|[]| |]; try discriminate.
+        specialize (K4 eq_refl). rewrite K4. destruct (hctx c); cbn; auto. discriminate.
+      * unfold resolve. destruct x as [|[]| |]; try discriminate; auto.
+        destruct (closed c && negb (hctx c)); discriminate.
+    + constructor; cbn; auto.
+  - destruct e; cbn.
+    + destruct h; cbn; try (constructor; cbn; auto; fail).
+      destruct (est c); constructor; cbn; auto; try discriminate; try congruence; fin.
+    + destruct h; cbn; try (constructor; cbn; auto; fail).
+      constructor; cbn; auto; try discriminate; try congruence; fin.
+    + destruct (installed c); constructor; cbn; auto.
+    + destruct r; cbn; try (constructor; cbn; auto; fail).
+      destruct (sock_closed c); constructor; cbn; auto; try discriminate; try congruence; fin.
+    + destruct h; cbn; destruct r; cbn; try destruct (sock_closed c);
+        constructor; cbn; auto; try discriminate; try congruence; fin.
+    + destruct r; cbn; constructor; cbn; auto; try discriminate; try congruence; fin.
+    + destruct (installed c); [|constructor; cbn; auto].
+      constructor; cbn; auto. unfold put_first_err; cbn.
+      destruct (first_err c) eqn:Ef; intros; try discriminate; try congruence; auto; fin.
+    + constructor; cbn; auto.
+    + constructor; cbn; auto.
+    + constructor; cbn; auto.
+    + constructor; cbn; auto.
+Qed.
+
+Lemma inv3_run ops g : Inv g -> Inv3 g -> Inv3 (run ops g).
+Proof.
+  revert g; induction ops as [|o ops IH]; intros g I K; cbn; auto.
+  apply IH; [apply inv_exec, I|apply inv3_exec; auto].
+Qed.
+
+Theorem inv3_reachable d v ops : Inv3 (run ops (cfg0 d v)).
+Proof. apply inv3_run; [apply inv0|apply inv3_0]. Qed.
+
+(* HandshakeContext reports a cancellation only when the context its caller passed is done: a
+   handshake interrupted by Close() ends with a closed-connection class (ErrConnClosed, or the
+   closed socket's error during version negotiation), never with "context canceled" *)
+Theorem handshake_canceled_only_by_caller d v ops r :
+  let g := run ops (cfg0 d v) in
+  hs g = HRet r -> hres_class (est (cn g)) r = KCanceled -> hctx (cn g) = true.
+Proof.
+  intros g H C. pose proof (inv3_reachable d v ops) as K. fold g in K.
+  destruct r as [|[]| |]; cbn in C; try discriminate;
+    destruct (est (cn g)); try discriminate.
+  - exact (k_r _ K H).
+  - exact (k_rx _ K H).
+Qed.
+
+Theorem handshake_result_without_caller_cancel d v ops r :
+  let g := run ops (cfg0 d v) in
+  hctx (cn g) = false -> hs g = HRet r ->
+  In (hres_class (est (cn g)) r) [KOk; KNetClosed; KAlert; KOther; KClosed].
+Proof.
+  intros g X H. pose proof (handshake_canceled_only_by_caller d v ops r H) as C. fold g in C.
+  destruct (hres_class (est (cn g)) r) eqn:E; cbn; auto 7.
+  - destruct r as [|[]| |]; cbn in E; destruct (est (cn g)); discriminate.
+  - destruct r as [|[]| |]; cbn in E; destruct (est (cn g)); discriminate.
+  - specialize (C eq_refl). congruence.
+Qed.
+
 (* ================================================================== non-vacuity *)
 
 (* four goroutines call Close() on an established connection, steps interleaved round-robin
@@ -974,8 +1160,10 @@ Example four_closers :
 Proof. vm_compute. auto. Qed.
 
 (* Close() while HandshakeContext is blocked in its select (not established): no close_notify,
-   the read loop delivers context.Canceled into firstErr, the handshake returns
-   "handshake failed: context canceled", then Close() returns *)
+   the read loop delivers context.Canceled into firstErr, the handshake sees that the connection
+   is closed and that its caller cancelled nothing and returns "handshake failed: conn is closed"
+   (ErrConnClosed; before commit 83f5bff "handshake failed: context canceled", finding F66),
+   then Close() returns *)
 Definition ops_close_during_handshake : list op :=
   [Env ECallHandshake; StepHs BEst; SpawnClose] ++
   repeat (StepUser 0) 7 ++ repeat StepReader 3 ++ [StepHs BErr; StepHs BErr; StepUser 0].
@@ -983,8 +1171,68 @@ Definition ops_close_during_handshake : list op :=
 Example close_during_handshake :
   let g := run ops_close_during_handshake (cfg0 false false) in
   cn_close (cn g) = 0 /\ sock_closes (cn g) = 1 /\ quiet g = true /\
-  hs g = HRet (HErr RCanceled) /\ hres_class (est (cn g)) (HErr RCanceled) = KCanceled.
+  hs g = HRet HClosed /\ hres_class (est (cn g)) HClosed = KClosed.
 Proof. vm_compute. auto. Qed.
+
+(* the same with the caller's context done before the loops have finished: the caller's own
+   cancellation is reported *)
+Definition ops_close_and_ctx_during_handshake : list op :=
+  [Env ECallHandshake; StepHs BEst; SpawnClose] ++
+  repeat (StepUser 0) 7 ++ repeat StepReader 3 ++ [StepHs BErr; Env EHsCtx; StepHs BErr; StepUser 0].
+
+Example close_and_ctx_during_handshake :
+  let g := run ops_close_and_ctx_during_handshake (cfg0 false false) in
+  quiet g = true /\ hs g = HRet (HErr RCanceled) /\
+  hres_class (est (cn g)) (HErr RCanceled) = KCanceled.
+Proof. vm_compute. auto. Qed.
+
+(* Close() of an established connection whose socket does not take writes (finding F81): the
+   close_notify write is abandoned after closeNotifyTimeout, the socket is closed once, Close()
+   returns, nothing is left - and no close_notify record is on the wire, which is why
+   sent_when_user_closes_established_open has its wr_blk premise *)
+Definition ops_close_with_blocked_socket : list op :=
+  ops_established ++ [Env EWrBlock; SpawnClose] ++ repeat (StepUser 0) 7 ++ repeat StepReader 3.
+
+Example close_with_blocked_socket :
+  let g := run ops_close_with_blocked_socket (cfg0 false false) in
+  cn_close (cn g) = 0 /\ cn_reply (cn g) = 0 /\ cn_once (cn g) = true /\ closed (cn g) = true /\
+  sock_closes (cn g) = 1 /\ quiet g = true /\ us g = [UDone].
+Proof. vm_compute. repeat split; reflexivity. Qed.
+
+(* the peer's close_notify has been read, the reply cannot be written: the read loop waits in
+   the write (no internal step is enabled) until the application's Close() cancels ctxRead;
+   then everything ends, without any record *)
+Definition ops_reply_blocked : list op := ops_established ++ [Env EWrBlock; Env ERecvCN].
+
+Example reply_blocked_until_close :
+  let g := run ops_reply_blocked (cfg0 false false) in
+  rd g = RReply /\ reader_enabled (rd g) (cn g) = false /\ closed (cn g) = false /\
+  let g' := run (SpawnClose :: repeat (StepUser 0) 7 ++ repeat StepReader 10) g in
+  quiet g' = true /\ cn_close (cn g') + cn_reply (cn g') = 0 /\ sock_closes (cn g') = 1.
+Proof. vm_compute. repeat split; reflexivity. Qed.
+
+(* ================================================================== known gap K-C16-1 *)
+
+(* conn.go Read/Write call c.Handshake() = HandshakeContext(context.Background()) when the
+   connection is not established: in the model the blocked call is the handshake caller, whose
+   select looks at firstErr, ctx and established only.  An expired read/write deadline enables
+   nothing: the call stays blocked although its deadline has passed.  (The property's "deadlines
+   interrupt blocked calls" therefore holds for the data-phase Read/Write - read_ready /
+   write_ready - and not for a Read/Write blocked in the implicit handshake.) *)
+Theorem deadline_wakes_handshake_refuted :
+  let g := run [Env ECallHandshake; StepHs BEst; Env ERdDeadline; Env EWrDeadline] (cfg0 false false) in
+  rd_dl (cn g) = true /\ wr_dl (cn g) = true /\ hs g = HSelect /\
+  forall o, internal o = true -> op_enabled o g = false.
+Proof.
+  vm_compute. repeat split; auto.
+  intros [|i| |b|e]; try discriminate; intros _; auto.
+  - destruct i; reflexivity.
+  - destruct b; reflexivity.
+Qed.
+
+Lemma deadlines_not_in_handshake_select c :
+  hs_select_ready (set_rd_dl (set_wr_dl c)) = hs_select_ready c.
+Proof. reflexivity. Qed.
 
 (* the race of close() with handshake(): the closeLock region of Close() runs before the cancel
    functions are installed, so its cancel calls are the no-op defaults; the read loop is
